@@ -191,6 +191,9 @@ func parseURI(raw string, retryWithDefaultPort bool) (*URI, error) { //nolint:go
 	if uri.Port, err = strconv.Atoi(rawPort); err != nil {
 		return nil, ErrPort
 	}
+	if uri.Port < 0 || uri.Port > 65535 {
+		return nil, ErrPort
+	}
 
 	switch uri.Scheme {
 	case SchemeTypeSTUN:
